@@ -375,18 +375,28 @@ class Universe:
         import json
         import time
 
-        gap = f.get("gap", 0.003)
-        time.sleep(gap)
+        stamp = f.get("stamp", False)
+        gap = 0 if stamp else f.get("gap", 0.003)
+        if gap:
+            time.sleep(gap)
         r = self.real.get(n)
+        if stamp:
+            # "stamped" file mode: the file's modified time is set explicitly (as cp -p, a restore from backup or a
+            # synchronisation tool do) to the history's own instant - years away from when the file was really touched
+            t = 978307200.0 + self.clock  # 2001-01-01T00:00:00Z + rank seconds
         if r is not None:
             kind, st, path = r
             v = self.value[n]
             st.write(json.dumps(v) if kind == "text" else v)
-            t = os.path.getmtime(path)
-        else:
+            if stamp:
+                os.utime(path, (t, t))
+            else:
+                t = os.path.getmtime(path)
+        elif not stamp:
             t = time.time()
         self.tsf[self.clock] = t
-        time.sleep(gap)
+        if gap:
+            time.sleep(gap)
 
     def _real_read(self, n):
         import json
